@@ -52,6 +52,8 @@ VARIANTS = {
     'ili-status': ('ili\tstatus', [('i1', 'deprecated'), ('i2', 'provisional'), ('i8', 'active')]),
     'ili-definition': ('ili\tdefinition', [('i2', 'only def'), ('i3', '')]),
     'short-rows': ('ili\tstatus\tdefinition', [('i1',), ('i2', 'deprecated'), ('i3', 'active', 'd3')]),
+    'quotes': ('ili\tstatus\tdefinition', [('i1', 'active', '"big" thing'), ('i2', 'deprecated', '"unbalanced quote'),
+                                             ('i3', 'provisional', "it's a \\ back\\slash, comma, 'q'"), ('i9', 'active', ' padded ')]),
     'empty': ('ili\tstatus\tdefinition', []),
     'gz': ('ili\tstatus\tdefinition', [('i2', 'active', 'zipped')]),
 }
@@ -186,7 +188,7 @@ def run(tier, seed, jobs=None):
     depth = 5 if tier == 'quick' else 7
     names = list(VARIANTS)
     if tier == 'quick':
-        names = ['full', 'short-rows', names[2 + seed % (len(names) - 2)]]
+        names = ['full', 'short-rows', 'quotes', names[2 + seed % (len(names) - 2)]]
         names = list(dict.fromkeys(names))
     runs, allV, vcount = [], [], {}
     for name in names:
